@@ -45,8 +45,25 @@ var c10Projects = map[string]*project{
 	"S8": {Root: "@lit", Types: map[string]string{"@lit": `"from type"`}},
 	// a text without any example element: whatever a pooled loader still holds shows here
 	"S9": {Root: "# nothing here yet"},
+	// twins: equal values spelled differently (1 / 1.0, 20.50 / 20.5, "A" / "\u0041"): whatever
+	// one process-wide table keyed by value would hand from one to the other
+	"S10": {Root: "{\n\t\"a\": 5, // {min: 1, max: 20.50}\n\t\"b\": \"A\", // {enum: [\"A\", \"b\"]}\n\t\"c\": 1.5 // {precision: 2, min: 0.50}\n}"},
+	"S11": {Root: "{\n\t\"a\": 5, // {min: 1.0, max: 20.5}\n\t\"b\": \"A\", // {enum: [\"\\u0041\", \"b\"]}\n\t\"c\": 1.5 // {precision: 2, min: 0.5}\n}"},
 	// fails in the checker
 	"S5": {Root: "{\n\t\"a\": 1, // {min: 0}\n\t\"b\": @missing,\n\t\"c\": 2 // {min: 5}\n}"},
+}
+
+// S12: a project whose example (about 9 KiB) and OpenAPI text (about 20 KiB) outgrow the
+// pooled buffers many times over: whatever a pool does with an oversized buffer shows in
+// the next, small, result.
+func init() {
+	var b strings.Builder
+	b.WriteString("{\n\t\"text\": \"" + strings.Repeat("x", 6000) + "\",\n\t\"list\": [\n\t\t1\n\t]")
+	for i := 0; i < 300; i++ {
+		fmt.Fprintf(&b, ",\n\t\"p%03d\": %d", i, i)
+	}
+	b.WriteString("\n}")
+	c10Projects["S12"] = &project{Root: b.String()}
 }
 
 const c10Enum = "[\n\t1, // one\n\t\"two\", /* second */\n\ttrue\n]"
@@ -63,7 +80,7 @@ type c10Sym struct {
 func (s c10Sym) String() string { return s.Obj + "." + s.Op }
 
 var c10Disturbers = []c10Sym{{"L", "{\n\t\"enabled\": tr"}, {"L", `"ab`}, {"LE", `[1, "a`}, {"S1", "AddType-refused"}, {"S3", "Check"}, {"S4", "Check"}, {"S5", "Check"}, {"S1", "Example"}, {"S6", "OpenAPI"}, 
-	{"D2", "Check"}, {"R1", "Example"}, {"G", "1e2"}, {"S8", "Example+write"}}
+	{"D2", "Check"}, {"R1", "Example"}, {"G", "1e2"}, {"S8", "Example+write"}, {"S10", "GetAST"}, {"S12", "Example"}, {"S12", "OpenAPI"}}
 
 func c10Alphabet() []c10Sym {
 	var out []c10Sym
@@ -97,6 +114,12 @@ func c10Alphabet() []c10Sym {
 	out = append(out, c10Sym{"E1", "Values+write"}, c10Sym{"S1", "Used+write"})
 	for _, op := range []string{"Check", "Example", "GetAST", "Used"} {
 		out = append(out, c10Sym{"S9", op})
+	}
+	out = append(out, c10Sym{"S12", "Example"}, c10Sym{"S12", "OpenAPI"})
+	for _, o := range []string{"S10", "S11"} {
+		for _, op := range []string{"GetAST", "OpenAPI", "Check"} {
+			out = append(out, c10Sym{o, op})
+		}
 	}
 	// lengths of fresh texts: some break off inside a literal, some are bare numbers
 	// that end with the text (whatever a pooled length scanner remembers shows there)
@@ -157,7 +180,7 @@ func c10Exec(objs *c10Objects, sym c10Sym) (res c10Result) {
 	}
 	rec, site := guard(func() {
 		switch sym.Obj {
-		case "S1", "S2", "S3", "S4", "S5", "S6", "S7", "S8", "S9":
+		case "S1", "S2", "S3", "S4", "S5", "S6", "S7", "S8", "S9", "S10", "S11", "S12":
 			s := objs.s[sym.Obj]
 			var buildErr error
 			if s == nil {
